@@ -211,6 +211,18 @@ class FiniteAt:
         try:
             exc, vxc, vsigma, _ = X.call_get_xc(S, self.f, "mock_xc")
         except (core.Undecided, core.OutsideSubset) as e:
+            # no special-value verdict on this tree (an operation the IEEE model does not cover, e.g. an infinity mapped to the largest float): the
+            # clause is evaluated natively at the fully polarised points; only a non-finite output changes the verdict
+            from contracts.xc_replay import replay_finite as _replay_finite_native
+
+            wit = dict(f=self.f, zeta=self.zeta_value, empty_channel_gradient=self.empty_channel_gradient)
+            try:
+                bad, info = _replay_finite_native(wit)
+            except Exception as ne:  # noqa: BLE001
+                bad, info = False, dict(raised=f"{type(ne).__name__}: {ne}")
+            if bad:
+                return Result(REFUTED, backend="native (float64 get_xc at zeta = +-1)", witness=wit, replayed=True, replay_info=info,
+                              detail=f"{self.f}: non-finite output at zeta = {self.zeta_value}: {sorted(info.get('non_finite', {}))} (no special-value verdict: {type(e).__name__}: {str(e)[:80]})")
             return Result(UNDECIDED, backend="engine-A/special-values", detail=f"{type(e).__name__}: {e}")
         outs = [("exc", exc), ("vxc", vxc)] + ([("vsigma", vsigma)] if vsigma is not None else [])
         for label, a in outs:
